@@ -341,7 +341,18 @@ def op_ro(self, a, targets):
                     u_ok = auth is not None and i < len(auth) and isinstance(auth[i], int) and auth[i] > 0
                     spec[rid] = {"format": "U" if (a.get("fmtmask", 0) >> i) & 1 and u_ok else "C",
                                  "rhbits": 3, "fhbits": 5, "cbits": 7, "pbits": 11}
-                fm = Format(t, spec)
+                # a Format object describes the live tensor: a caller may keep it across later mutations
+                keep = getattr(self, "_formats", None)
+                if keep is None:
+                    keep = self._formats = {}
+                old_fm = keep.get(a["slot"])
+                skey = repr(spec)          # (Format fills defaults into the dictionary it is given)
+                if a.get("reuse") and old_fm is not None and old_fm[0] is t and old_fm[1] == skey:
+                    fm = old_fm[2]
+                    self.probe("format_object_reused")
+                else:
+                    fm = Format(t, spec)
+                    keep[a["slot"]] = (t, skey, fm, a.get("fmtmask", 0))
                 tot = fm.getTensor()
                 per = [fm.getRank(r) for r in ids]
                 fm.getSubTree()
@@ -555,8 +566,17 @@ def gen_ro(self, g):
     if not cands:
         return None
     s = g.choice(cands)
+    kept = getattr(self, "_formats", None)
+    if self.prop == "C02" and kept and g.random() < 0.12:
+        # ask a Format object created earlier again, after whatever happened to its tensor since
+        s = g.choice(sorted(kept))
+        if s in self.slots and self.slots[s].t is kept[s][0]:
+            return ["op", "ro", {"slot": s, "kind": "format", "prefix": [], "fmtmask": kept[s][3], "reuse": True}]
+        s = g.choice(cands)
     sl = self.slots[s]
     kind = g.choice(RO_KINDS)
+    if self.prop == "C02" and g.random() < 0.2:
+        kind = g.choice(["format", "format", "clearstats", "str"])       # the derived per-rank quantities
     if sl.free:
         return None
     k = g.randrange(sl.depth)
@@ -592,7 +612,8 @@ def gen_ro(self, g):
     if kind == "project":
         a["rev"] = g.random() < 0.5
     if kind == "format":
-        a["fmtmask"] = g.randrange(8)
+        a["fmtmask"] = g.choice([0, 0, g.randrange(8)])
+        a["reuse"] = g.random() < 0.7
     if g.random() < 0.3:
         a["twin"] = True
     return ["op", "ro", a]
@@ -608,11 +629,14 @@ def gen_render(self, g):
          "style": g.choice(["tree", "uncompressed", "tree+uncompressed"])}
     if g.random() < 0.6 and sl.depth >= 1 and all(isinstance(x, int) for x in sl.shape):
         # highlights: full points and points with fewer coordinates than the tensor has ranks
-        pts = []
-        for _ in range(g.randint(1, 2)):
-            n = g.randint(1, sl.depth)
-            pts.append(enc_point(self.rand_path(g, sl, n)))
-        a["hl"] = {g.choice(["PE", "PE0"]): pts}
+        # several workers per picture, drawn from more names than the renderer has colours (ten)
+        a["hl"] = {}
+        for w in g.sample(["PE"] + [f"PE{i}" for i in range(13)], g.choice([1, 1, 2, 4, 7])):
+            pts = []
+            for _ in range(g.randint(1, 2)):
+                n = g.randint(1, sl.depth)
+                pts.append(enc_point(self.rand_path(g, sl, n)))
+            a["hl"][w] = pts
     return ["op", "ro", a]
 
 
